@@ -18,11 +18,11 @@ pub fn det() {
     let draws: Vec<Vec<u8>> = crate::c11::draw_sizes(&db.config).into_iter().map(|n| rng.bytes(n)).collect();
     let mut outs = Vec::new();
     for _ in 0..3 {
-        keepass::verif_hooks::script(draws.clone());
+        crate::hook::script(draws.clone());
         let mut v = Vec::new();
         db.save(&mut v, key.clone()).unwrap();
-        println!("requested {:?}", keepass::verif_hooks::requested());
-        keepass::verif_hooks::unscript();
+        println!("requested {:?}", crate::hook::requested());
+        crate::hook::unscript();
         let xml = Database::get_xml(&mut &v[..], key.clone()).unwrap();
         outs.push((v, xml));
     }
